@@ -33,7 +33,7 @@ Record world := {
   w_thost : str
 }.
 
-(* the configuration the MODEL derives from it (proxy_config.go) *)
+(* the configuration the MODEL derives from it (proxy_config.go:213-230, 427-445) *)
 Definition cfg_of_world (w : world) : cfg :=
   {| c_signer := w_signer w;
      c_hmac := match hmac_of_config (w_algs w) (w_service w) (w_environ w) with HmacOn k => Some k | _ => None end;
@@ -116,8 +116,9 @@ Definition gap_present (p : request) : bool :=
   match r_gap_sig p with Some _ => true | None => has_header gap_signature (r_headers p) end.
 
 (* known findings: K1 = a Connection token names a covered or signature header (hop-by-hop removal
-   after signing); K2 = the Content-Length header at signing time is not the one the transport writes;
-   K3 = the documented variable is set but the service name is not lower-case, so the key is never found *)
+   after signing); K2 = the Content-Length header at signing time is not the one the transport writes.
+   (C12-K3 — documented variable set, service name not lower-case, key never found — is fixed in /repo
+   c723740: it has no attribution any more, a recurrence is a plain violation.) *)
 Definition protected : list str := documented_covered ++ sig_headers.
 Definition is_on (h : hmac_config) : bool := match h with HmacOn _ => true | _ => false end.
 Definition is_err (h : hmac_config) : bool := match h with HmacConfigError => true | _ => false end.
@@ -157,7 +158,6 @@ Definition judge (cs : case) : N :=
       let known : N :=
         if negb (conn_safe protected (r_headers rs)) then 1
         else if negb (cl_canonical rs) then 2
-        else if is_on (doc_hmac w) && negb (is_on (hmac_of_config (w_algs w) (w_service w) (w_environ w))) then 3
         else 0 in
       code (m_proj || m_canon || m_rsa || m_hmac || m_body || m_vkey) holds known
   end.
